@@ -382,6 +382,50 @@ def rule_r5(facts, rep, rid="C12-R5"):
                 rep.ok(rid, key, "no call made under the guard reaches another acquisition (%d statement(s) in scope)" % len(scope_nodes), "%s:%s" % (f.file, x.get("ln")))
 
 
+# ------------------------------------------------------------------------------------------ R6 where request workers run
+
+DEDICATED = ("std::thread::spawn", "std::thread::Builder::spawn", "std::thread::scope", "std::thread::Scope::spawn")
+POOLS = ("rayon::spawn", "rayon_core::spawn", "rayon::scope", "rayon_core::scope", "rayon::ThreadPool::spawn", "rayon_core::ThreadPool::spawn", "rayon::join", "rayon::spawn_fifo", "rayon_core::spawn_fifo")
+
+
+def rule_r6(facts, rep, rid="C12-R6"):
+    from .common import ctx
+    cg = facts.callgraph
+    onreq = facts.fn("Router::on_request")
+    n = 0
+    for f in facts.body_fns():
+        if f.crate != "iwes" or f.kind == "closure":
+            continue
+        c = None
+        for x in fb.walk(f.body):
+            if x.get("k") == "mcall" and fb.callee(x) == onreq.def_:
+                c = c or ctx(f)
+                ps = c.parents(x)
+                clos = [p for p in ps if p.get("k") == "closure"]
+                n += 1
+                key = "%s|request-worker-dispatch" % f.def_
+                if not clos:
+                    rep.violation(rid, key, "Router::on_request is called inline on the message loop: a slow request delays every later notification and request", "%s:%s" % (f.file, x.get("ln")))
+                    continue
+                host = None
+                for p in ps[ps.index(clos[0]) + 1:]:
+                    if p.get("k") in ("call", "mcall") and clos[0] in p.get("args", []):
+                        host = p
+                        break
+                cal = (fb.rcallee(host) or fb.callee(host) or "?") if host else "?"
+                if cal in DEDICATED:
+                    rep.ok(rid, key, "each request runs on its own thread (%s)" % fb.last2(cal), "%s:%s" % (f.file, x.get("ln")))
+                else:
+                    # is the pool also needed while the write lock is held?  (rayon par_iter below the notification path)
+                    notif = facts.fn("Router::on_notification")
+                    reach = cg.reachable_from([notif.def_])
+                    uses_pool = sorted(r for r in reach if r.startswith(("rayon::iter::", "rayon::slice::", "rayon_core::")))[:2]
+                    rep.violation(rid, key, "request workers are started with `%s` instead of a dedicated thread: they block in server.read() while occupying pool workers, and the edit handler "
+                                  "that holds the write lock itself needs that pool (%s) -> with enough concurrent requests nobody can make progress: requests are never answered and the "
+                                  "message loop hangs" % (fb.last2(cal), ", ".join(fb.last2(u) for u in uses_pool) or "rayon"), "%s:%s" % (f.file, x.get("ln")))
+    rep.floor(rid, "dispatch sites of Router::on_request", n, 1)
+
+
 def _site_line_in(fn, node, closures):
     for c in closures:
         if any(y is node for y in fb.walk(c)):
@@ -405,3 +449,6 @@ def run(facts, rep, tier):
     rep.rule("C12-R5", "Lock discipline on the shared server state: every acquisition recovers from poisoning (a panicking edit handler must not turn every later request into an "
              "error), and no fn calls, while it holds a guard, anything that acquires the lock again (re-entrant read + queued writer = deadlock, no response).")
     rule_r5(facts, rep)
+    rep.rule("C12-R6", "Request workers run on dedicated threads (std::thread::spawn): they block on the server lock, so they must not occupy the bounded rayon pool that the edit path "
+             "needs while it holds the write lock.")
+    rule_r6(facts, rep)
